@@ -643,6 +643,29 @@ func genC16(c *Ctx) {
 			c.Case("pop-identity-key", "expect false #", guard(func() string { return boolAns(crypto.BLSVerifyPOP(idk, cand)) }))
 		}
 	}
+	// the proof of possession GENERATED by an aggregated private key whose scalar is zero never verifies under its own
+	// (identity) public key, whichever inputs had their public keys computed before
+	for pat := 0; pat < 4; pat++ {
+		a := c.randScalar()
+		x, y := skFromInt(a), skFromInt(new(big.Int).Sub(blsR, a))
+		if pat&1 != 0 {
+			_ = x.PublicKey()
+		}
+		if pat&2 != 0 {
+			_ = y.PublicKey()
+		}
+		c.Case("pop-of-zero-aggregated-key", "expect false #", guard(func() string {
+			z, err := crypto.AggregateBLSPrivateKeys([]crypto.PrivateKey{x, y})
+			if err != nil {
+				return "err " + errClass(err)
+			}
+			pop, err := crypto.BLSGeneratePOP(z)
+			if err != nil {
+				return "false" // refusing to prove possession of the zero key is fine too
+			}
+			return boolAns(crypto.BLSVerifyPOP(z.PublicKey(), pop))
+		}))
+	}
 	ec := ecSk(ecCurves[0], big.NewInt(5))
 	c.Case("pop-not-bls", "expect NotBLSKey NotBLSKey #", guard(func() string {
 		_, e1 := crypto.BLSGeneratePOP(ec)
@@ -715,6 +738,20 @@ func genC17(c *Ctx) {
 			emit("wrong-length-both", k1, pk1, both[:cut], k2, pk2, both[cut:])
 		}
 		emit("wrong-length-both", k1, pk1, nil, k2, pk2, both)
+		// the same key on both sides, held in objects of different provenance (fresh = affine coordinates; result of a
+		// removal = projective coordinates), with identical proofs: e(p, pk) = e(p, pk) whatever the representation
+		{
+			o := skFromInt(c.randScalar()).PublicKey()
+			both, _ := crypto.AggregateBLSPublicKeys([]crypto.PublicKey{pk1, o})
+			pk1r, err := crypto.RemoveBLSPublicKeys(both, []crypto.PublicKey{o})
+			if err == nil {
+				dec, _ := crypto.DecodePublicKey(crypto.BLSBLS12381, pk1.Encode())
+				emit("same-key-other-provenance/removal", k1, pk1, p1, k1, pk1r, p1)
+				emit("same-key-other-provenance/removal-swapped", k1, pk1r, p1, k1, pk1, p1)
+				emit("same-key-other-provenance/decoded", k1, pk1, p1, k1, dec, p1)
+				emit("same-key-other-provenance/removal-both", k1, pk1r, p1, k1, pk1r, p1)
+			}
+		}
 		// identity keys
 		idk := pickIdentity(c, it)
 		zero := big.NewInt(0)
